@@ -47,10 +47,57 @@ Definition props_eqb (a b : props) : bool :=
   opt_eqb precv_eqb (p_prec a) (p_prec b) && opt_eqb String.eqb (p_round a) (p_round b) &&
   opt_eqb String.eqb (p_ovf a) (p_ovf b) && opt_eqb Z.eqb (p_n a) (p_n b).
 
-Definition unop_eqb (a b : unop) : bool :=
-  match a, b with UNeg, UNeg | UAbs, UAbs | USqrt, USqrt => true | _, _ => false end.
-Definition binop_eqb (a b : binop) : bool :=
-  match a, b with BAdd, BAdd | BSub, BSub | BMul, BMul | BDiv, BDiv => true | _, _ => false end.
+Definition unop_idx (o : unop) : nat :=
+  match o with
+  | UNeg => 0
+  | UAbs => 1
+  | USqrt => 2
+  | UCbrt => 3
+  | UCeil => 4
+  | UFloor => 5
+  | UNearbyInt => 6
+  | URoundInt => 7
+  | UTrunc => 8
+  | UAcos => 9
+  | UAsin => 10
+  | UAtan => 11
+  | UCos => 12
+  | USin => 13
+  | UTan => 14
+  | UAcosh => 15
+  | UAsinh => 16
+  | UAtanh => 17
+  | UCosh => 18
+  | USinh => 19
+  | UTanh => 20
+  | UExp => 21
+  | UExp2 => 22
+  | UExpm1 => 23
+  | ULog => 24
+  | ULog10 => 25
+  | ULog1p => 26
+  | ULog2 => 27
+  | UErf => 28
+  | UErfc => 29
+  | ULgamma => 30
+  | UTgamma => 31
+  end.
+Definition unop_eqb (a b : unop) : bool := Nat.eqb (unop_idx a) (unop_idx b).
+Definition binop_idx (o : binop) : nat :=
+  match o with
+  | BAdd => 0
+  | BSub => 1
+  | BMul => 2
+  | BDiv => 3
+  | BCopysign => 4
+  | BFdim => 5
+  | BFmod => 6
+  | BRemainder => 7
+  | BHypot => 8
+  | BAtan2 => 9
+  | BPow => 10
+  end.
+Definition binop_eqb (a b : binop) : bool := Nat.eqb (binop_idx a) (binop_idx b).
 Definition cmpop_eqb (a b : cmpop) : bool :=
   match a, b with
   | CLt, CLt | CLe, CLe | CGt, CGt | CGe, CGe | CEq, CEq | CNe, CNe => true
